@@ -88,7 +88,7 @@ pub fn profile(name: &str) -> Profile {
         "C12" => Profile { name: "C12", kinds: [2, 1, 8, 1, 0, 0, 0, 0, 0], w_dispatch: 10, w_advance: 5, w_cause: 3, ..base },
         "C13" => Profile { name: "C13", w_idle: 10, err_returns: true, ..base },
         "C15" => Profile { name: "C15", faults: false, scripted_faults: true, natural_faults: true, err_returns: true, kinds: [3, 2, 3, 6, 0, 0, 0, 0, 0], ..base },
-        "C14" => Profile { name: "C14", kinds: [2, 1, 2, 2, 8, 0, 0, 0, 0], w_token: 9, scripted_faults: true, err_returns: true, ..base },
+        "C14" => Profile { name: "C14", kinds: [2, 1, 2, 2, 8, 0, 0, 0, 0], w_token: 9, w_misc: 4, faults: true, scripted_faults: true, err_returns: true, ..base },
         "C16" => Profile { name: "C16", kinds: [2, 2, 0, 10, 0, 0, 0, 0, 0], table_every: 1, w_token: 8, err_returns: true, ..base },
         _ => base,
     }
@@ -493,7 +493,7 @@ impl G {
                 0 => vec![Op::Wakeup],
                 1 if self.p.scripted_faults => {
                     let Some((id, _, _)) = self.any_src() else { return vec![] };
-                    vec![Op::FailNext { id, what: self.rng.range(2, 4) as u8, nth: self.rng.below(2) as u32 }]
+                    vec![Op::FailNext { id, what: self.rng.range(1, 5) as u8, nth: self.rng.below(2) as u32 }]
                 }
                 2 => self.timer_set_op().into_iter().collect(),
                 _ => vec![Op::Dispatch(Timeout::Zero)],
